@@ -200,3 +200,22 @@ def gen_history(rng, profile='c01', nops=80, cfg=None, heavy=None):
         ops.append('bscan %d' % n)
     ops.append('scan -'); ops.append('rscan -'); ops.append('layout')
     return cfg, ops, keys
+
+
+def straddle_history(nver=40, cmp=0):
+    """Corpus history: one user key whose versions (pinned by snapshots) straddle several level-1
+    files, then a manual compaction whose range only touches the first of them (exercises
+    add_boundary_inputs), then reads at the latest sequence and at snapshots."""
+    cfg = {'write_buffer': 262144, 'block_size': 4096, 'restart': 16, 'max_file_size': 1048576, 'compression': 0,
+           'bloom': 10, 'cache': -1, 'mmap': 0, 'reuse_logs': 0, 'comparator': cmp, 'paranoid': 0}
+    A, K, Z = '61', '6b', '7a'
+    if cmp == 1: A, Z = Z, A          # reverse comparator: keep "A" before K in comparator order
+    ops = ['open', 'put %s @10:1' % A, 'put %s @10:2' % Z]
+    for i in range(nver):
+        ops.append('put %s @60000:%d' % (K, i % 256)); ops.append('snap')
+    ops += ['flush', 'layout', 'crange 0 * *', 'layout', 'get %s -' % K, 'get %s 3' % K, 'get %s %d' % (K, nver - 2),
+            'crange 1 %s %s' % (A, A), 'layout', 'get %s -' % K, 'get %s 3' % K, 'get %s %d' % (K, nver // 2), 'scan -', 'scan 5',
+            'crange 2 %s %s' % (A, A), 'layout', 'get %s -' % K, 'get %s 7' % K, 'scan -']
+    for i in range(0, nver, 3): ops.append('release %d' % i)
+    ops += ['crange 1 * *', 'layout', 'get %s -' % K, 'get %s 4' % K, 'scan -', 'crange 2 * *', 'crange 3 * *', 'layout', 'get %s -' % K, 'scan -', 'scan 1', 'reopen', 'get %s -' % K, 'scan -', 'layout']
+    return (cfg, ops)
